@@ -12,3 +12,6 @@ import VecModel.Props.C02
 import VecModel.Props.C09
 import VecModel.Props.C12
 import VecModel.Props.C13
+import VecModel.Model.Vocab
+import VecModel.Lemmas.Vocab
+import VecModel.Props.C05
